@@ -453,6 +453,8 @@ def died(raw):
 
 def model_mismatches(ctx, tag, cases, traces, shard=250):
     """Indices of the cases whose real trace differs from the model's (compared inside Coq)."""
+    # one coqc per core: start-up (loading the libraries) is not free
+    shard = max(60, min(400, (len(cases) + core.NCPU - 1) // core.NCPU))
     pairs = []
     for c, tr in zip(cases, traces):
         steps = c[2][:len(tr)]
